@@ -15,6 +15,10 @@ type Deadliner struct {
 	exempt  map[core.DutyType]bool
 	added   map[core.Duty]int
 	ch      chan core.Duty
+	// OnAdd, if set, runs inside every Add call after the answer has been determined and before it is
+	// returned (not under the deadliner's own lock): the harness can let things happen exactly while the
+	// component under test is inside its deadliner call.
+	OnAdd func(duty core.Duty, status core.DeadlineStatus)
 }
 
 func NewDeadliner(exemptTypes ...core.DutyType) *Deadliner {
@@ -27,16 +31,20 @@ func NewDeadliner(exemptTypes ...core.DutyType) *Deadliner {
 
 func (d *Deadliner) Add(duty core.Duty) core.DeadlineStatus {
 	d.mu.Lock()
-	defer d.mu.Unlock()
 	d.added[duty]++
+	status := core.DeadlineScheduled
 	switch {
 	case d.exempt[duty.Type]:
-		return core.DeadlineExempt
+		status = core.DeadlineExempt
 	case d.expired[duty]:
-		return core.DeadlineExpired
-	default:
-		return core.DeadlineScheduled
+		status = core.DeadlineExpired
 	}
+	hook := d.OnAdd
+	d.mu.Unlock()
+	if hook != nil {
+		hook(duty, status)
+	}
+	return status
 }
 
 func (d *Deadliner) C() <-chan core.Duty { return d.ch }
